@@ -672,6 +672,16 @@ def sweep_rows(rng, d, tier):
             a, b, c = (mi(x) for x in rng.sample(PLAIN_IDENTS, 3))
             out.append(T("math", [row(a, mo(op), b, mo(ref), c)]))
             out.append(T("math", [row(a, mo(ref), b, mo(op), c)]))
+    # juxtaposition (an implied operator) right after and right before each operator: a OP b c, a b OP c, 1 OP 2 x, and
+    # the same inside a script
+    for op in ops:
+        a, b, c = (mi(x) for x in rng.sample(PLAIN_IDENTS, 3))
+        out.append(T("math", [row(a, mo(op), b, c)]))
+        out.append(T("math", [row(a, b, mo(op), c)]))
+        out.append(T("math", [row(mn("1"), mo(op), mn("2"), a)]))
+        if tier != "quick" or op in ops[:40]:
+            out.append(T("math", [T("msup", [mi("e"), row(a, mo(op), mn("4"), b, c)])]))
+            out.append(T("math", [row(a, mo(op), b, c, mo("="), mi("e"))]))
     return out
 
 
@@ -684,6 +694,14 @@ def generate(res):
     n_mixed, n_plain = (250, 250) if tier == "quick" else (2500, 2500)
     mixed = cases(rng, n_mixed, [t for t, _ in entries]) + sweep_rows(rng, d, tier)
     plain = plain_rows(rng, n_plain, d)
+    # juxtaposition next to every swept operator, as plain rows (the reference parse gives the implied operator its dictionary priority)
+    sw = special_cased_ops(d)
+    for op in sw + [o for o in PLAIN_INFIX if o not in sw]:
+        for r in ([mi("a"), mo(op), mi("b"), mi("c")], [mi("a"), mi("b"), mo(op), mi("c")], [mn("1"), mo(op), mn("2"), mi("x")],
+                  [mi("a"), mo(op), mi("b"), mi("c"), mi("u"), mo("="), mi("w")], [mi("a"), mo("+"), mi("b"), mo(op), mn("2"), mi("x"), mi("y")]):
+            items, why = classify_plain(canon_tokens(r), d)
+            if items is not None:
+                plain.append((r, items, None))
     trees = mixed + [T("math", [row(*r)]) for r, _, _ in plain]
     obs = observe(trees)
     plain_in = [t for t, _ in obs[len(mixed):] if t is not None]
